@@ -18,6 +18,7 @@ def run(rep):
     f4(rep, w)
     import c06
     c06.s5(rep, w)   # a yield / switch must not close the suspended fiber's upvalues (its slots stay live)
+    c06.s6(rep, w)   # a finishing fiber closes the upvalues of its body frame before the frame goes
 
 
 def value_key(paths):
